@@ -226,7 +226,7 @@ def run_backend(prob, atoms, bad, backend: str, reorder: bool, leak: bool, perm=
         if backend == "sv":
             r = compat.run_sv(data, compat.sv_config(observables=obs, dt=10))
         else:
-            cfg = compat.mps_config(observables=obs, dt=10, precision=1e-10, optimize_qubit_ordering=reorder)
+            cfg = compat.mps_config(observables=obs, dt=10, precision=1e-10, optimize_qubit_ordering=bool(reorder))
             if reorder:
                 stack.enter_context(mock.patch.object(impl_mod.optimat, "minimize_bandwidth",
                                                       lambda M: torch.tensor(perm, dtype=torch.int64)))
@@ -253,6 +253,13 @@ def oracle_case(cs: int, n: int, bad: tuple, backend: str, reorder: bool, leak: 
     fails = []
     good = [i for i in range(n) if not bad[i]]
     perm = prob["site_perm"]
+    if reorder == "prefix":
+        # a legal optimiser answer that starts like the identity on as many sites as there are good atoms and
+        # permutes the rest (e.g. [0, 1, 3, 4, 2] with two good atoms)
+        g_ = len(good)
+        rest = list(range(g_, n))
+        perm = list(range(g_)) + rest[1:] + rest[:1]
+        info["site_perm"] = perm
     try:
         full = run_backend(prob, range(n), bad, backend, reorder, leak, perm=perm, slm=slm, noise=noise)
     except ValueError as e:
@@ -293,7 +300,7 @@ def oracle_case(cs: int, n: int, bad: tuple, backend: str, reorder: bool, leak: 
     if reorder and ref_backend == "mps":
         pos = {a: k for k, a in enumerate(good)}
         red_perm = [pos[a] for a in perm if a in pos]
-    key = (cs, n, tuple(good), ref_backend, reorder and ref_backend == "mps", leak and ref_backend == "mps", slm, noise)
+    key = (cs, n, tuple(good), ref_backend, reorder and ref_backend == "mps", leak and ref_backend == "mps", slm, noise, tuple(red_perm) if red_perm is not None else None)
     if cache is not None and key in cache:
         red = cache[key]
     else:
@@ -329,7 +336,10 @@ def oracle_case(cs: int, n: int, bad: tuple, backend: str, reorder: bool, leak: 
     for tag in ETAGS:
         for k, t in enumerate(EV):
             a, b = full["ham"][tag][k], red["ham"][tag][k]
-            if abs(a - b) > htol * max(1.0, abs(b), abs(red["ham"]["energy_second_moment"][k])):
+            # H·H is formed with zip_right at DEFAULT_PRECISION = 1e-5, and the padded operator truncates differently
+            # from the reduced one: observed clean-tree spread 2e-7 relative on the second moment → allowance 5e-6
+            rel = htol if tag == "energy" else max(htol, 5e-6)
+            if abs(a - b) > rel * max(1.0, abs(b), abs(red["ham"]["energy_second_moment"][k])):
                 when = "" if not slm else (" (SLM mask still on)" if 200.0 * t <= prob["slm_end"] else " (after the SLM mask ended)")
                 fails.append((f"{tag} at t = {200.0 * t:g} ns{when}: {a!r} with the mask, {b!r} on the reduced register", info, None))
                 break
@@ -362,7 +372,9 @@ CONFIGS = [("sv", False, False, False, None), ("mps", False, False, False, None)
            # noisy: emu-sv = density-matrix solver; emu-mps = Monte-Carlo trajectories (same random stream in both runs)
            ("sv", False, False, False, "relax"), ("sv", False, False, True, "eff"), ("mps", False, False, False, "relax"),
            ("mps", True, False, False, "dephase"), ("mps", False, True, False, "eff"), ("mps", True, True, True, "relax"),
-           ("mps", False, False, False, "eff-nojump"), ("mps", True, True, False, "dephase-nojump")]
+           ("mps", False, False, False, "eff-nojump"), ("mps", True, True, False, "dephase-nojump"),
+           # forced site orders whose first #good entries are the identity while the rest is permuted
+           ("mps", "prefix", False, False, None), ("mps", "prefix", True, True, None)]
 
 
 def oracle_plan(rng, tier: str):
@@ -374,6 +386,12 @@ def oracle_plan(rng, tier: str):
         masks = list(itertools.product([False, True], repeat=n))
         for ci, cfg in enumerate(CONFIGS):
             ms = masks
+            if cfg[1] == "prefix":
+                # only meaningful with ≥ 2 good atoms and ≥ 2 other sites; cheap, so every such mask is run in both tiers
+                for w in masks:
+                    if sum(1 for b in w if not b) >= 2 and sum(w) >= 2 and (tier != "quick" or ci == 17 or n == 4):
+                        plan.append((cs, n, tuple(w), cfg))
+                continue
             if cfg[0] == "sv" and cfg[4] and n > 4:
                 continue        # density matrices of 5 atoms: 1024², skipped for time
             if tier == "quick" and (ci in (3, 7) or (n == 2 and ci in (4, 5)) or (n == 5 and cfg[4]) or (n == 2 and ci in (12, 16))):
